@@ -8,4 +8,6 @@ INVARIANT NoOrphanInstance
 INVARIANT NoOverlapTogether
 INVARIANT HookOrder
 INVARIANT StoppedIffNoRun
+INVARIANT StateMatchesFlags
+INVARIANT FlagsOnlyInARun
 CHECK_DEADLOCK FALSE
